@@ -6,7 +6,8 @@ Layer B — dated ranges (`MonthdayRange.date`), part S: soundness of the hint.
 S1: not a single fixed day and the start carries a year (`single_interval_from_bounds` answers):
     unconditional.  Single fixed day with a year (one-element year list): unconditional.
 S2 (yearless single day) and S3 (windowed general path): OH/Proofs/HintDatedWindow.lean — any offsets
-    within ±30 000 000 days (±300 000 days when a bound is Easter), through the refinement `filter = datedOk`.
+    within ±92 000 000 days (HintDatedWide.lean; ±300 000 days when a bound is Easter, HintDatedWindow.lean),
+    through the refinement `filter = datedOk`.
 -/
 namespace OH.Model
 open OH.Model.Cal
